@@ -557,13 +557,6 @@ Definition sig_of (o : rop) : string :=
 Definition op_in_domain (o : rop) : bool :=
   match o with OSet r => wf_region r | _ => true end.
 
-(* the excluded input classes: a pending peer on a store where the region has no peer; two peers
-   (or two pending peers) of one region on the same store *)
-Definition foreign_pending (o : rop) : bool :=
-  match o with OSet r => valid_range r && negb (pending_in_peers r) | _ => false end.
-Definition shared_store (o : rop) : bool :=
-  match o with OSet r => valid_range r && negb (nodup_stores (r_peers r) && nodup_stores (r_pending r)) | _ => false end.
-
 Fixpoint ri_monitor_from (l : spec) (ops : list rop) (obs : list robs) : option string :=
   match ops, obs with
   | o :: ro, b :: rb =>
@@ -574,20 +567,11 @@ Fixpoint ri_monitor_from (l : spec) (ops : list rop) (obs : list robs) : option 
   | _, _ => None
   end.
 
-(* The monitor speaks about histories of regions with valid key ranges.  A history that contains a
-   malformed peer list (one of the two excluded classes) is judged too, but its disagreement with the
-   specification is reported under the signature of that class. *)
+(* The monitor speaks only about histories inside the domain of the property: every put region has a valid key
+   range and a well-formed peer list (wf_region).  Histories of the malformed stream are compared with the model
+   (M) but never judged. *)
 Definition ri_monitor (ops : list rop) (obs : list robs) : option string :=
-  if forallb (fun o => match o with OSet r => valid_range r | _ => true end) ops then
-    match ri_monitor_from [] ops obs with
-    | Some sg => if existsb foreign_pending ops
-                 then Some "C07:pending-peer-outside-peers-leaves-stale-pending-entry"
-                 else if existsb shared_store ops
-                 then Some "C07:two-peers-on-one-store-statistics-counted-twice"
-                 else Some sg
-    | None => None
-    end
-  else None.
+  if forallb op_in_domain ops then ri_monitor_from [] ops obs else None.
 
 (* ---------------------------------------------------------------------------------------- *)
 (* case files                                                                                 *)
